@@ -17,7 +17,7 @@ from ..ast.visitor import DefaultVisitor
 from ..fpc_context import FPCoreContext
 from ..interpret import Interpreter, Value, get_default_interpreter
 from ..interpret.value import to_value, unwrap_foreign
-from ..number import REAL
+from ..number import REAL, Float
 from .define_use import DefineUse, DefineUseAnalysis, Definition, DefSite
 
 
@@ -49,6 +49,26 @@ def _holds_list(val) -> bool:
     if isinstance(val, list):
         return True
     return isinstance(val, tuple) and any(_holds_list(v) for v in val)
+
+
+def _same_value(a, b) -> bool:
+    """Whether two known values are the same constant.  `==` alone would
+    identify the two zeros, which a later `1 / x` or `signbit` tells apart."""
+    if isinstance(a, (list, tuple)):
+        return (
+            type(a) is type(b)
+            and len(a) == len(b)
+            and all(_same_value(x, y) for x, y in zip(a, b))
+        )
+    if isinstance(b, (list, tuple)) or a != b:
+        return False
+    if isinstance(a, bool) or isinstance(b, bool):
+        return isinstance(a, bool) and isinstance(b, bool)
+    if isinstance(a, Float) or isinstance(b, Float):
+        a_neg = isinstance(a, Float) and a.is_zero() and a.s
+        b_neg = isinstance(b, Float) and b.is_zero() and b.s
+        return a_neg == b_neg
+    return True
 
 
 class _MutationScan(DefaultVisitor):
@@ -143,7 +163,7 @@ class _PartialEvalInstance(DefaultVisitor):
             return a
         if a is _TOP or b is _TOP:
             return _TOP
-        return a if a == b else _TOP
+        return a if _same_value(a, b) else _TOP
 
     def _merge_branch_phis(self, stmt: Stmt):
         """Merge phis after an ``if`` / ``if-else``: both branches are
